@@ -483,8 +483,13 @@ class EIG(BaseRoutine):
             logger.error('No dynamic model. Eig analysis will not continue.')
             status = False
 
+        elif system.dae.kcount == 0 and system.dae.t == 0:
+            # TDS has been initialized by the caller but not run: take the same
+            # zero-length step as when initializing here
+            system.TDS.itm_step()
+
         else:
-            # TDS has been initialized by the caller: evaluate the equations and
+            # TDS has been run by the caller: evaluate the equations and
             # the Jacobians at the present operating point
             system.TDS.fg_update(system.exist.pflow_tds)
             system.j_update(models=system.exist.pflow_tds)
